@@ -66,11 +66,21 @@ func (f *g2lFn) initInOut(fn *types.Func, names []string) {
 				}
 			}
 		}
+		if v != nil && f.g.nonNilSlice(v.Type()) { // go2lean_effects.go: an in-out slice of pointees
+			f.mutated[v] = true
+			f.inOut = append(f.inOut, v)
+			continue
+		}
 		if v == nil || !g2lIsPtr(v.Type()) {
 			f.fail("in-out parameter `%s` is not a pointer parameter of the function", n)
 		}
 		if !f.g.paramIsVal(fn, idx) {
-			f.fail("in-out parameter `%s` is used other than by dereference (nil test, stored, passed on)", n)
+			if !f.g.onlyNilTested(fn, v) { // go2lean_effects.go: a nil-tested in-out pointer stays an Option
+				f.fail("in-out parameter `%s` is used other than by dereference or nil test (stored, passed on)", n)
+			}
+			f.mutated[v] = true
+			f.inOut = append(f.inOut, v)
+			continue
 		}
 		f.setVal(v)
 		f.mutated[v] = true
@@ -96,6 +106,9 @@ func (f *g2lFn) inOutResult(resT string, nres int) string {
 	parts := []string{resT}
 	if nres == 1 {
 		parts = []string{g2lPar(resT)}
+	}
+	if nres == 0 { // go2lean_effects.go: a function without result returns its in-out parameters only
+		parts = nil
 	}
 	for _, v := range f.inOut {
 		parts = append(parts, g2lPar(f.leanVar(v, v.Type())))
